@@ -70,3 +70,23 @@ Theorem C06_source_RetrieveAssertionInfo_is_the_model : forall cfg now enc (v : 
   G_RetrieveAssertionInfo cfg now enc (res_some v) = PVal (res_some (retrieve_info cfg now v)).
 Proof. exact G_RetrieveAssertionInfo_eq. Qed.
 Print Assumptions C06_source_RetrieveAssertionInfo_is_the_model.
+
+(* the invariance theorems on the translated source function itself *)
+From V Require Import P_C06 P_C06Source.
+Theorem C06_source_non_time_warnings_clock_independent : forall cfg now1 now2 a w1 w2,
+  G_VerifyAssertionConditions cfg now1 a = PVal (Ok (Some w1)) ->
+  G_VerifyAssertionConditions cfg now2 a = PVal (Ok (Some w2)) ->
+  w_not_in_audience w1 = w_not_in_audience w2 /\ w_one_time_use w1 = w_one_time_use w2 /\
+  w_proxy_restriction w1 = w_proxy_restriction w2.
+Proof. exact source_non_time_warnings_clock_independent. Qed.
+Print Assumptions C06_source_non_time_warnings_clock_independent.
+
+Theorem C06_source_audience_warning_depends_on_member_sets_only : forall cfg now1 now2 a1 a2 w1 w2 c1 c2,
+  G_VerifyAssertionConditions cfg now1 a1 = PVal (Ok (Some w1)) ->
+  G_VerifyAssertionConditions cfg now2 a2 = PVal (Ok (Some w2)) ->
+  a_conditions a1 = Some c1 -> a_conditions a2 = Some c2 ->
+  covers (c_audience_restrictions c1) (c_audience_restrictions c2) ->
+  covers (c_audience_restrictions c2) (c_audience_restrictions c1) ->
+  w_not_in_audience w1 = w_not_in_audience w2.
+Proof. exact source_audience_warning_depends_on_member_sets_only. Qed.
+Print Assumptions C06_source_audience_warning_depends_on_member_sets_only.
